@@ -61,6 +61,8 @@ def sites(node, env, v, path=(), depth=0):
     elif k == 'int':
         out.append((path, 'long-for-int', {'l': v['i']}, 'rejected'))
     elif k == 'double':
+        out.append((path, 'int-for-double', {'i': 3}, 'rejected'))
+        out.append((path, 'long-for-double', {'l': 3}, 'rejected'))
         b = int(v['d'], 16)
         x = struct.unpack('<d', struct.pack('<Q', b))[0]
         if x == x and abs(x) < 3e38:
@@ -69,7 +71,11 @@ def sites(node, env, v, path=(), depth=0):
                 out.append((path, 'float-for-double', {'f': '0x%08x' % f}, 'accepted'))
             except OverflowError:
                 pass
+    elif k == 'float' and False:
+        pass
     elif k == 'float':
+        out.append((path, 'int-for-float', {'i': 3}, 'rejected'))
+        out.append((path, 'long-for-float', {'l': 3}, 'rejected'))
         b = int(v['f'], 16)
         x = struct.unpack('<f', struct.pack('<I', b))[0]
         if x == x:
